@@ -60,6 +60,7 @@ type knownFile struct {
 type runLine struct {
 	Run        uint64          `json:"run"`
 	Hash       string          `json:"hash"`
+	EpochKeys  []string        `json:"epoch_keys,omitempty"`
 	Violations []sim.Violation `json:"violations,omitempty"`
 	Program    *sim.Program    `json:"program,omitempty"`
 	Summary    *summary        `json:"summary,omitempty"`
@@ -146,7 +147,8 @@ func main() {
 	var raceReports, raceRuns, altRuns, harnessTrouble int
 	var trouble []string
 
-	runBatch := func(bin string, total int, base uint64, race bool, label string) {
+	epochKeys := map[string]map[uint64]string{} // label -> run -> joined epoch digests
+	runBatch := func(bin string, total int, base uint64, race bool, label string, extra ...string) {
 		if total <= 0 {
 			return
 		}
@@ -169,6 +171,7 @@ func main() {
 					if race {
 						args = append(args, "-progress", prog)
 					}
+					args = append(args, extra...)
 					cmd := exec.Command(filepath.Join(work, bin), args...)
 					// plain workers hand the baton over a channel: one P makes that a
 					// goroutine switch; race workers park on pipes and need spare Ps
@@ -183,6 +186,13 @@ func main() {
 					lines, s := readOut(out)
 					mu.Lock()
 					for _, l := range lines {
+						if l.Hash == "epochs" {
+							if epochKeys[label] == nil {
+								epochKeys[label] = map[uint64]string{}
+							}
+							epochKeys[label][l.Run] = strings.Join(l.EpochKeys, ",")
+							continue
+						}
 						for _, v := range l.Violations {
 							viols = append(viols, found{v: v, run: l.Run, prog: l.Program, bin: bin, nw: nw, base: base})
 						}
@@ -253,6 +263,44 @@ func main() {
 		runBatch("worker-alt", cfg.alt, 1<<41, false, "alt")
 	}
 
+	// Cross-process history independence, only for trees that add
+	// package-level state the pinned tree does not have.
+	var focusKinds, newState []string
+	focusRuns := 0
+	if id == "C20" {
+		focusKinds, newState = sim.FocusKinds(filepath.Join(work, "lib", "verif_state.json"))
+	}
+	if len(focusKinds) > 0 {
+		fmt.Printf("note: the tree declares package-level state the pinned tree does not have (%s); focusing on %s\n", strings.Join(newState, ", "), strings.Join(focusKinds, ", "))
+		n := cfg.plain / 4
+		fk := strings.Join(focusKinds, ",")
+		runBatch("worker", n, 1<<42, false, "focus", "-focus", fk, "-epochkeys")
+		runBatch("worker", n, 1<<42, false, "focusperm", "-focus", fk, "-epochkeys", "-permute")
+		var runsDiff []uint64
+		for run, k := range epochKeys["focus"] {
+			focusRuns++
+			if k2, ok := epochKeys["focusperm"][run]; ok && k2 != k {
+				runsDiff = append(runsDiff, run)
+			}
+		}
+		sort.Slice(runsDiff, func(i, j int) bool { return runsDiff[i] < runsDiff[j] })
+		seenOp := map[string]bool{}
+		for _, run := range runsDiff {
+			if len(seenOp) >= 3 {
+				break
+			}
+			f := histViolation(run, fk, *treeHash)
+			if f != nil && !seenOp[f.v.Op] {
+				seenOp[f.v.Op] = true
+				viols = append(viols, *f)
+			}
+		}
+	}
+
+	focusInfo["new_package_level_state"] = newState
+	focusInfo["focus_operation_kinds"] = focusKinds
+	focusInfo["focus_runs_compared_across_two_fresh_processes"] = focusRuns
+	focusInfo["note"] = "only exercised when the tree declares package-level variables the pinned tree does not have; then focus programs (same calls under different DefaultRoundingMode values in consecutive epochs, few operands) run in two fresh processes with the epochs in opposite order and every epoch's results must agree"
 	if harnessTrouble > 0 {
 		for _, t := range trouble {
 			fmt.Fprintln(os.Stderr, "ctl:", t)
@@ -375,6 +423,39 @@ func (kf *knownFile) match(v sim.Violation) *known {
 
 // writeReplay stores the violation, minimises it and re-verifies the result
 // in a fresh process.
+// histViolation re-creates the focus program of a run whose epoch results
+// differed between the two fresh processes, confirms the difference and
+// returns it as a violation (nil if it does not reproduce).
+func histViolation(run uint64, fk string, tree string) *found {
+	cmd := exec.Command(filepath.Join(work, "worker"), "-profile", "P20", "-seed", fmt.Sprint(seed), "-from", fmt.Sprint(run), "-n", "1", "-focus", fk, "-dump")
+	out, err := cmd.Output()
+	if err != nil {
+		return nil
+	}
+	var p sim.Program
+	if json.Unmarshal(bytes.TrimSpace(out), &p) != nil {
+		return nil
+	}
+	tmp := filepath.Join(work, fmt.Sprintf("hist-%d.json", run))
+	b, _ := json.Marshal(sim.ReplayFile{Program: &p})
+	os.WriteFile(tmp, b, 0o644)
+	c := exec.Command(filepath.Join(work, "worker"), "-histcheck", tmp, "-budget", fmt.Sprint(budget))
+	det, err := c.Output()
+	ee, ok := err.(*exec.ExitError)
+	if !ok || ee.ExitCode() != 1 {
+		return nil
+	}
+	detail := strings.TrimSpace(string(det))
+	op := "?"
+	if i := strings.Index(detail, "operation "); i >= 0 {
+		f := strings.Fields(detail[i+len("operation "):])
+		if len(f) >= 2 {
+			op = strings.TrimSuffix(f[1], ":")
+		}
+	}
+	return &found{v: sim.Violation{Property: id, Class: sim.VHistory, Op: op, Detail: detail}, run: run, prog: &p, bin: "worker"}
+}
+
 func writeReplay(f found, tree string) string {
 	dir := filepath.Join(verif, "replays")
 	os.MkdirAll(dir, 0o755)
@@ -391,6 +472,9 @@ func writeReplay(f found, tree string) string {
 	args := []string{"-minimize", path, "-budget", fmt.Sprint(budget)}
 	if f.race != nil {
 		args = append(args, "-racemin", "-minbudget", "80")
+	}
+	if f.v.Class == sim.VHistory {
+		args = append(args, "-minbudget", "60")
 	}
 	cmd := exec.Command(filepath.Join(work, f.bin), args...)
 	cmd.Stderr = os.Stderr
@@ -444,6 +528,18 @@ func doReplay(path string, cfg tierCfg) int {
 		fmt.Printf("replay of %s: the race did not reproduce in 5 attempts\n", path)
 		return 0
 	}
+	if rf.Class == sim.VHistory {
+		c := exec.Command(filepath.Join(work, "worker"), "-histcheck", path, "-budget", fmt.Sprint(budget))
+		det, err := c.Output()
+		if ee, ok := err.(*exec.ExitError); ok && ee.ExitCode() == 1 {
+			fmt.Printf("VIOLATION property=%s replay=%s\n  class=%s\n  %s\n", id, path, rf.Class, strings.TrimSpace(string(det)))
+			return 1
+		} else if err != nil {
+			fail("history replay failed: %v", err)
+		}
+		fmt.Printf("replay of %s: the epochs give the same results in both orders on this tree\n", path)
+		return 0
+	}
 	cmd := exec.Command(filepath.Join(work, "worker"), "-replay", path, "-budget", fmt.Sprint(budget))
 	var ob, eb bytes.Buffer
 	cmd.Stdout = &ob
@@ -468,6 +564,8 @@ func isExit(err error) bool {
 	_, ok := err.(*exec.ExitError)
 	return ok
 }
+
+var focusInfo = map[string]any{}
 
 func writeEvidence(cfg tierCfg, sums []summary, wall float64, nViol, raceRuns, raceReports, altRuns int, altVersion string, knownHit map[string]int, tree string) {
 	nontrivial := map[string]bool{}
@@ -573,6 +671,7 @@ func writeEvidence(cfg tierCfg, sums []summary, wall float64, nViol, raceRuns, r
 			"toolchains":                 toolchains,
 			"known_findings_seen":        kh,
 			"tree_hash":                  tree,
+			"new_shared_state_focus":     focusInfo,
 			"profile":                    cfg.profile,
 			"workers":                    runtime.NumCPU(),
 			"components_real":            []string{"library (go/ast-instrumented copy of /repo's working tree)", "fmt", "encoding/json", "math/big", "bufio", "strconv"},
